@@ -76,7 +76,7 @@ def make(pname, cuts, nest):
 
 def make_diag(did, fsmap, lines, text):
     def body(ctx):
-        with MemFS({k: [l + "\n" for l in v] for k, v in fsmap.items()}):
+        with MemFS({k: (v if isinstance(v, BaseException) else [l + "\n" for l in v]) for k, v in fsmap.items()}):
             out = assemble(lines)
         info = {"outcome": out.describe()}
         if out.kind == "diag":
@@ -110,6 +110,9 @@ def obligations(tier, seed):
         add(sorted(rnd.sample(range(1, n), 3)), True)
     obs.append(make_diag("missing", {}, ["A NOP", " INCLUDE nothere.asm", "B NOP"], "INCLUDE of a missing file"))
     obs.append(make_diag("missing-nested", {"a.asm": ["C NOP", " INCLUDE b.asm"]}, ["A NOP", " INCLUDE a.asm"], "nested INCLUDE of a missing file"))
+    obs.append(make_diag("directory", {"lib": IsADirectoryError(21, "Is a directory", "lib")}, ["A NOP", " INCLUDE lib"], "INCLUDE of a directory"))
+    obs.append(make_diag("unreadable", {"x.asm": PermissionError(13, "Permission denied", "x.asm")}, [" INCLUDE x.asm"], "INCLUDE of an unreadable file"))
+    obs.append(make_diag("not-a-dir", {"a.asm/b.asm": NotADirectoryError(20, "Not a directory", "a.asm/b.asm")}, [" INCLUDE a.asm/b.asm"], "INCLUDE through a non-directory"))
     obs.append(make_diag("self-cycle", {"a.asm": ["C NOP", " INCLUDE a.asm"]}, ["A NOP", " INCLUDE a.asm"], "a.asm includes itself"))
     obs.append(make_diag("cycle2", {"a.asm": ["C NOP", " INCLUDE b.asm"], "b.asm": [" INCLUDE a.asm"]}, [" INCLUDE a.asm"], "a.asm <-> b.asm"))
     obs.append(make_diag("cycle3", {"a.asm": [" INCLUDE b.asm"], "b.asm": [" INCLUDE c.asm"], "c.asm": ["X NOP", " INCLUDE a.asm"]},
